@@ -181,7 +181,7 @@ PROPS = {
                  "and Unmarshal(Marshal v) = v for ALL values of all ten shipped scheme layouts (param, omitempty, group, inline, text codecs), stated over the shapes regenerated from the current Go struct tags. "
                  "The hypothesis (Unambiguous shape ∧ Representable value) is an explicit decidable predicate (Spec/CodecDomain.lean); inside it the round trip is also checked directly on Go for generated types. "
                  "The Marshal/Unmarshal/TagInfo models are hand-written and tied by ~80 000 differential operations per run incl. error kinds, offsets and field names.",
-        "note": "Partial: the general (all-shapes) theorem is proved for the optional-free positional layer; layers with param/group/omitempty/inline are proved per shipped shape, not yet for arbitrary shapes. Known finding F12 (empty last field) is reported, not assumed away. Trusted: reflect's view of a type.",
+        "note": "The GENERAL theorem is kernel-checked (Props/C10General.lean, roundtrip_L6 / roundtrip_general): for an arbitrary struct type and value inside the explicit decidable hypothesis — type info as getTypeInfo builds it (tiWf), Unambiguous, parameter groups separated by something that is always written, value typed and Representable, last text not empty (F12), no positional text that mimics an omitted optional parameter — Unmarshal(Marshal v) = v, covering params, inline, text codecs, groups, omitempty and trailing optionals; needs_* theorems show each added clause is necessary (two were holes in the earlier hand-calibrated predicate, found by the proof: merged group runs, a value stealing an omitted parameter's name). The proof also forced numReqValues = number of required fields, which exposed a genuine defect (a shadowed param counted twice), repaired in d4f4d57. The suite's in-domain direct check uses exactly the theorem's hypothesis. Trusted: reflect's view of a type; the codec model is tied to Go differentially.",
         "rule": "codec: 16 hand-written shapes (embedding, shadowing, pointers, mirrors of the ten shipped layouts) + 120 (quick) / 2500 (thorough) struct types generated with reflect.StructOf over kinds × tag options (1..8 fields), 6..20 values each over/outside each field's alphabet, lengths 0..40, integer extremes; "
                 "for each: typeinfo, Marshal in T/*T/**T form, Unmarshal of the canonical string and of its edit-distance-1 neighbourhood/splices, round trip, re-marshal stability, respelling verdict; "
                 "non-trivial/distinct = distinct (type, marshalled string) pairs",
@@ -190,13 +190,13 @@ PROPS = {
     },
     "C20": {
         "suites": ["codec"],
-        "fail_kinds": ["not-a-respelling"],
+        "fail_kinds": ["not-a-respelling", "accepted-unwritable"],
         "level": "proof",
         "technique": "Lean 4: decidable Respell specification evaluated on every string the real Unmarshal accepts (against Marshal of the very value it returned) + kernel-checked lossless/exact parsing so that nothing is dropped before the codec sees it",
         "claim": "Kernel-checked: the parser is lossless and equals the split-based reference on every input, no value hides a delimiter, parse∘render is the identity on well-formed trees (so an accepted string's fragments are exactly what the codec matched). "
                  "The tolerated respellings (one trailing delimiter; integer spellings of equal value; order inside a parameter group; explicitly written zero/empty optional field) are a decidable specification written against the derivation of the canonical string, "
                  "and EVERY string accepted by the real Unmarshal in the suites (edit-distance-1 neighbourhoods, splices, all short strings) is checked to be a respelling of the real Marshal of the returned value — a disagreement is a concrete failing input.",
-        "note": "Kernel-checked per shipped layout for ALL strings: Accept.accepts_only_respellings_<scheme> (unmarshal ti h = ok out → respell ti (finalVals ti out) h). Partial: for arbitrary struct types 'accepted ⇒ respelling' is decided per accepted string against the specification, not proved in general. Known findings F10 (param+inline) and F13 (omitempty on non-empty arrays) are reported as such.",
+        "note": "Kernel-checked in general (Props/C10General.lean, accepted_respell_all): for an ARBITRARY struct type whose options are consistent (no length on integers or the prefix, [n]byte of length n, the 4-symbol integer with length:4, optional fields not inline / not non-empty arrays / not whitelist-typed, distinct group names) every string Unmarshal accepts is a tolerated respelling of what Marshal writes for the value read; needs_intNoLength / needs_arrayLength / needs_desIntLength / needs_optOk show the exclusions are necessary (option combinations no shipped scheme uses; F13 is one of them). Per shipped layout also Accept.accepts_only_respellings_<scheme>. Known findings F10 (param+inline) and F13 (omitempty on non-empty arrays) are reported as such.",
         "rule": "codec: see C10; for every (type, value): every string at edit distance 1 from the canonical marshalling under the class-representative alphabet {$ , = _ 0 9 a Z . / + @ NUL 0xFF} (exhaustive for strings ≤ 24 bytes on a quarter of the types, sampled otherwise), "
                 "structural splices (prefix inserted/removed, name=/= removed, fragments swapped/duplicated, group split/merged, junk fragment/group appended), all strings ≤ 4 (quick) / 5 (thorough) over {$ , = a 0 _} for five small types; "
                 "non-trivial/distinct = distinct (type, marshalled string) pairs",
